@@ -636,6 +636,7 @@ const PATHS: &[PathDef] = &[
     PathDef { ctor: "P_in_index_order_by", sql: "SELECT id FROM m ORDER BY k IN (SELECT k FROM s), id", required: &[(M, SEL), (S, SEL)], checked_extra: &[], class: "in-subquery-index-path" },
     PathDef { ctor: "P_in_index_group_by", sql: "SELECT COUNT(*) FROM m GROUP BY k IN (SELECT k FROM s)", required: &[(M, SEL), (S, SEL)], checked_extra: &[], class: "in-subquery-index-path" },
     PathDef { ctor: "P_in_index_partition_by", sql: "SELECT id, SUM(v) OVER (PARTITION BY k IN (SELECT k FROM s)) FROM m", required: &[(M, SEL), (S, SEL)], checked_extra: &[], class: "in-subquery-index-path" },
+    PathDef { ctor: "P_window_partition_subquery", sql: "SELECT id, SUM(v) OVER (PARTITION BY (SELECT MAX(v) FROM s)) FROM m", required: &[(M, SEL), (S, SEL)], checked_extra: &[], class: "window-partition-error-swallowed" },
     PathDef { ctor: "P_insert_values", sql: "INSERT INTO t VALUES (50, 5, 5)", required: &[(T, INS)], checked_extra: &[], class: "" },
     PathDef { ctor: "P_insert_select", sql: "INSERT INTO t SELECT id + 1000, k, v FROM s", required: &[(T, INS), (S, SEL)], checked_extra: &[], class: "" },
     PathDef { ctor: "P_insert_select_columns", sql: "INSERT INTO t (id, k, v) SELECT id, k, v FROM s", required: &[(T, INS), (S, SEL)], checked_extra: &[], class: "" },
@@ -649,8 +650,8 @@ const PATHS: &[PathDef] = &[
     PathDef { ctor: "P_delete_where", sql: "DELETE FROM u WHERE v > 1", required: &[(U, DEL)], checked_extra: &[], class: "" },
     PathDef { ctor: "P_delete_pk", sql: "DELETE FROM u WHERE id = 1", required: &[(U, DEL)], checked_extra: &[], class: "" },
     PathDef { ctor: "P_delete_all", sql: "DELETE FROM u", required: &[(U, DEL)], checked_extra: &[], class: "" },
-    PathDef { ctor: "P_delete_where_subquery", sql: "DELETE FROM u WHERE k IN (SELECT k FROM s)", required: &[(U, DEL), (S, SEL)], checked_extra: &[], class: "delete-where-error-swallowed" },
-    PathDef { ctor: "P_delete_where_exists", sql: "DELETE FROM u WHERE EXISTS (SELECT 1 FROM s WHERE s.k = u.k)", required: &[(U, DEL), (S, SEL)], checked_extra: &[], class: "delete-where-error-swallowed" },
+    PathDef { ctor: "P_delete_where_subquery", sql: "DELETE FROM u WHERE k IN (SELECT k FROM s)", required: &[(U, DEL), (S, SEL)], checked_extra: &[], class: "" },
+    PathDef { ctor: "P_delete_where_exists", sql: "DELETE FROM u WHERE EXISTS (SELECT 1 FROM s WHERE s.k = u.k)", required: &[(U, DEL), (S, SEL)], checked_extra: &[], class: "" },
     PathDef { ctor: "P_truncate", sql: "TRUNCATE TABLE u", required: &[(U, DEL)], checked_extra: &[], class: "" },
     PathDef { ctor: "P_truncate_multi", sql: "TRUNCATE TABLE u, m", required: &[(U, DEL), (M, DEL)], checked_extra: &[], class: "" },
     PathDef { ctor: "P_truncate_cascade", sql: "TRUNCATE TABLE p CASCADE", required: &[(P, DEL), (D, DEL)], checked_extra: &[], class: "" },
@@ -1166,9 +1167,10 @@ fn main() {
                     if code == 0 {
                         // executed although a required privilege is missing
                         let leaked = lacks_select && (matches!(&out, Outcome::Rows(r) if !r.is_empty()) || !changed.is_empty());
-                        let class = if pd.class == "delete-where-error-swallowed" && changed.is_empty() && lacking == vec![(S, SEL)] {
-                            "delete-where-error-swallowed"
-                        } else if !pd.class.is_empty() && pd.class != "delete-where-error-swallowed" && pd.class != "truncate-multi-cascade-partial" {
+                        let class = if pd.class == "window-partition-error-swallowed" && changed.is_empty() && lacking == vec![(S, SEL)] {
+                            // the statement ran, but without the refused subquery: every row lands in the NULL partition
+                            "window-partition-error-swallowed"
+                        } else if !pd.class.is_empty() && pd.class != "window-partition-error-swallowed" && pd.class != "truncate-multi-cascade-partial" {
                             // the class is about exactly one missing privilege per path
                             let about: (u8, u8) = match pd.class {
                                 "count-star-fast-path" | "in-subquery-index-path" | "insert-select-bulk-transfer" => (S, SEL),
@@ -1220,7 +1222,8 @@ fn main() {
     for k in 0..ndb {
         let mut r = Rng::new(args.seed, &format!("c26/blanket/{}", k));
         let big = k % 8 == 7;
-        let dbdef = if k % 16 == 11 { gen_db_sized(&mut r, 2, 100, 120) } else { gen_db(&mut r, 3, if big { 14 } else { 6 }) };
+        let huge = k % 16 == 11;
+        let dbdef = if huge { gen_db_sized(&mut r, 2, 100, 120) } else { gen_db(&mut r, 3, if big { 14 } else { 6 }) };
         let mut db = vh::semrun::load_db(&dbdef);
         let nt = dbdef.tables.len();
         let with_index = r.chance(1, 2);
@@ -1239,8 +1242,15 @@ fn main() {
         }
         db.enable_security();
         for _ in 0..per_db {
-            let depth = 1 + r.below(3) as usize;
-            let cfg = if big { GenCfg { max_from: 2, ..GenCfg::default() } } else { GenCfg::default() };
+            // sizes as in c01: nested joins / correlated subqueries over >100-row tables take minutes
+            let depth = if huge || big { 1 + r.below(2) as usize } else { 1 + r.below(3) as usize };
+            let cfg = if huge {
+                GenCfg { max_from: 1, joins: false, subqueries: false, ..GenCfg::default() }
+            } else if big {
+                GenCfg { max_from: 2, ..GenCfg::default() }
+            } else {
+                GenCfg::default()
+            };
             let (q, _) = {
                 let mut g = Gen { r: &mut r, db: &dbdef, cfg };
                 g.query(depth)
